@@ -25,10 +25,14 @@ func (*C13) Name() string { return "C13" }
 type bridgeGhost struct {
 	consumed map[string]string // classKey|id|source (literal) -> entry point that consumed it
 	bound    map[string]string // classKey|contract -> batch denom
+	chains   map[string]bool   // lower-cased chain names allowed by the accepted governance messages
 }
 
 func (g *bridgeGhost) Clone() explore.Ghost {
-	n := &bridgeGhost{consumed: make(map[string]string, len(g.consumed)), bound: make(map[string]string, len(g.bound))}
+	n := &bridgeGhost{consumed: make(map[string]string, len(g.consumed)), bound: make(map[string]string, len(g.bound)), chains: make(map[string]bool, len(g.chains))}
+	for k := range g.chains {
+		n.chains[k] = true
+	}
 	for k, v := range g.consumed {
 		n.consumed[k] = v
 	}
@@ -45,6 +49,9 @@ func (g *bridgeGhost) Digest() []byte {
 	}
 	for k, v := range g.bound {
 		ks = append(ks, "b:"+k+"="+v)
+	}
+	for k := range g.chains {
+		ks = append(ks, "a:"+k)
 	}
 	sort.Strings(ks)
 	return []byte(strings.Join(ks, ";"))
@@ -63,7 +70,10 @@ func classKeyOfBatch(s *chain.Snapshot, denom string) (uint64, bool) {
 }
 
 func (m *C13) NewGhost(_ *chain.Chain, _ sdk.Context, seed *chain.Snapshot) explore.Ghost {
-	g := &bridgeGhost{consumed: map[string]string{}, bound: map[string]string{}}
+	g := &bridgeGhost{consumed: map[string]string{}, bound: map[string]string{}, chains: map[string]bool{}}
+	for _, c := range seed.BridgeChains {
+		g.chains[c.ChainName] = true
+	}
 	for _, o := range seed.OriginTxs {
 		g.consumed[fmt.Sprintf("%d|%s|%s", o.ClassKey, o.Id, o.Source)] = "seed"
 	}
@@ -137,8 +147,8 @@ func (m *C13) OnStep(gh explore.Ghost, st *explore.Step) []V {
 				break
 			}
 			m.consume(g, post, r.BatchDenom, msg.OriginTx, "BridgeReceive", &out)
-			if !chainAllowed(pre, msg.OriginTx.Source) {
-				out = append(out, V{Kind: "C13/bridge-receive-from-disallowed-chain", Detail: st.Act.Label})
+			if !chainAllowed(pre, msg.OriginTx.Source) || !g.chains[strings.ToLower(msg.OriginTx.Source)] {
+				out = append(out, V{Kind: "C13/bridge-receive-from-disallowed-chain", Detail: st.Act.Label + " (allowed per accepted governance messages: " + fmt.Sprint(sortedKeys(g.chains)) + ")"})
 			}
 			cl := pre.ClassByID(msg.ClassId)
 			if cl != nil {
@@ -166,10 +176,15 @@ func (m *C13) OnStep(gh explore.Ghost, st *explore.Step) []V {
 					m.inc("receipts_creating_batch")
 				}
 			}
+		case *basetypes.MsgAddAllowedBridgeChain:
+			g.chains[strings.ToLower(msg.ChainName)] = true
+		case *basetypes.MsgRemoveAllowedBridgeChain:
+			delete(g.chains, strings.ToLower(msg.ChainName))
+			m.inc("chain_removals")
 		case *basetypes.MsgBridge:
 			m.inc("bridge_outs")
-			if !chainAllowed(pre, msg.Target) {
-				out = append(out, V{Kind: "C13/bridge-to-disallowed-target", Detail: st.Act.Label})
+			if !chainAllowed(pre, msg.Target) || !g.chains[strings.ToLower(msg.Target)] {
+				out = append(out, V{Kind: "C13/bridge-to-disallowed-target", Detail: st.Act.Label + " (allowed per accepted governance messages: " + fmt.Sprint(sortedKeys(g.chains)) + ")"})
 			}
 			want := map[uint64]*big.Rat{}
 			var evs []abci.Event
